@@ -343,8 +343,34 @@ class Ctx:
         return True
 
     # -- lean ----------------------------------------------------------------
+    def model_map_stage(self):
+        """tools/modelmap.json names every Python function whose logic a Lean definition mirrors.  Resolve each entry of this property against the
+        CURRENT source (a renamed / removed function is a broken tie) and record what share of the package is inside a model."""
+        try:
+            import modelmap
+            mp = os.path.join(ROOT, "tools", "modelmap.json")
+            if not os.path.exists(mp):
+                return
+            r = modelmap.check(REPO, mp)
+            mine = [m for m in r.get("missing", []) if self.prop in (m.get("properties") or [])]
+            for m in mine[:5]:
+                self.broken.append("model map: %s::%s (block %s) no longer exists in the source — the Lean model %s mirrors a function that is gone"
+                                   % (m.get("python_file"), m.get("python_qualname"), m.get("block"), m.get("lean_file")))
+            out = {"functions_modelled_for_this_property": (r.get("by_property", {}).get(self.prop) or {}).get("functions", 0),
+                   "lines_modelled_for_this_property": (r.get("by_property", {}).get(self.prop) or {}).get("lines", 0),
+                   "package": r.get("package"), "missing_entries": len(r.get("missing", [])), "missing_for_this_property": len(mine)}
+            bp = os.path.join(ROOT, "tools", "modelmap_baseline.json")
+            if os.path.exists(bp):
+                ch = modelmap.changed(REPO, bp, mp)
+                body = [c for c in ch.get("changed", []) if self.prop in (c.get("properties") or [])] if ch.get("changed") and isinstance(ch["changed"][0], dict) else ch.get("changed", [])
+                out["modelled_functions_whose_body_changed_since_validation"] = [str(c.get("key", c) if isinstance(c, dict) else c) for c in body][:20]
+            self.model_map = out
+        except Exception as e:          # the map is documentation of the trusted base: its failure must not turn into an alarm
+            self.model_map = {"error": repr(e)[:300]}
+
     def lean_stage(self, gen, modules):
         """translate + build + audit.  Fills self.lean; appends to self.broken."""
+        self.model_map_stage()
         with build_lock():
             tr = translate(gen)
             for name, err in tr.items():
@@ -406,6 +432,8 @@ class Ctx:
             cov["leanchecker"] = self.lean["leanchecker"]
         if getattr(self, "blocks", None):
             cov["building_blocks"] = self.blocks
+        if getattr(self, "model_map", None):
+            cov["model_map"] = self.model_map
         if getattr(self, "blocks_escalated", None):
             cov["building_blocks_run_on_complete_space_because_their_source_changed"] = self.blocks_escalated
         if getattr(self, "escalated_from_quick", None):
